@@ -126,6 +126,10 @@ pub struct Run {
     pub threads: usize,
     start: Instant,
     deadline: Instant,
+    /// the same cap counted in CPU time of this process (all threads): under load from other
+    /// processes the wall clock says nothing about how much was explored
+    cpu_cap_ticks: u64,
+    last_cpu_check: Mutex<Instant>,
     expired: AtomicBool,
     sh: Mutex<Shared>,
     rule: Mutex<String>,
@@ -196,7 +200,10 @@ impl Run {
             root,
             threads,
             start,
-            deadline: start + Duration::from_secs(cap),
+            // the wall clock only as a backstop (ten times the cap); the cap itself is CPU time
+            deadline: start + Duration::from_secs(cap * 10),
+            cpu_cap_ticks: cap * 100 * threads as u64,
+            last_cpu_check: Mutex::new(start),
             expired: AtomicBool::new(false),
             sh: Mutex::new(Shared {
                 states: 0,
@@ -225,9 +232,25 @@ impl Run {
         if self.expired.load(Ordering::Relaxed) {
             return true;
         }
-        if Instant::now() > self.deadline {
+        let now = Instant::now();
+        if now > self.deadline {
             self.expired.store(true, Ordering::Relaxed);
             return true;
+        }
+        // CPU time of the process (utime + stime, 100 ticks per second), looked at five times a second
+        if let Ok(mut last) = self.last_cpu_check.try_lock() {
+            if now.duration_since(*last) > Duration::from_millis(200) {
+                *last = now;
+                let ticks = std::fs::read_to_string("/proc/self/stat").ok().and_then(|s| {
+                    let rest = s[s.rfind(')')? + 1..].to_string();
+                    let f: Vec<&str> = rest.split_whitespace().collect();
+                    Some(f.get(11)?.parse::<u64>().ok()? + f.get(12)?.parse::<u64>().ok()?)
+                });
+                if ticks.map_or(false, |t| t > self.cpu_cap_ticks) {
+                    self.expired.store(true, Ordering::Relaxed);
+                    return true;
+                }
+            }
         }
         false
     }
